@@ -182,12 +182,20 @@ def gen_combined(rng, conflict=False, nparents=2):
     for _ in range(n):
         p = rng.choice(prefixes)
         t = gen.rand_text(rng, 40, allow_empty=False, tabs_ok=False)
+        while t.startswith(('=======', '<<<<<<<', '>>>>>>>', '|||||||')):
+            t = gen.rand_text(rng, 40, allow_empty=False, tabs_ok=False)   # would read as a conflict marker
         body.append(p + t)
         model.append(('line', p, t))
     if conflict:
-        ours = [gen.rand_text(rng, 30, allow_empty=False, tabs_ok=False) for _ in range(rng.randint(1, 3))]
-        anc = [gen.rand_text(rng, 30, allow_empty=False, tabs_ok=False) for _ in range(rng.randint(1, 3))]
-        theirs = [gen.rand_text(rng, 30, allow_empty=False, tabs_ok=False) for _ in range(rng.randint(1, 3))]
+        def side_text():
+            # a side's content equal to a conflict marker is inherently ambiguous: not generated
+            while True:
+                t = gen.rand_text(rng, 30, allow_empty=False, tabs_ok=False)
+                if not t.startswith(('=======', '<<<<<<<', '>>>>>>>', '|||||||')):
+                    return t
+        ours = [side_text() for _ in range(rng.randint(1, 3))]
+        anc = [side_text() for _ in range(rng.randint(1, 3))]
+        theirs = [side_text() for _ in range(rng.randint(1, 3))]
         body.append('++<<<<<<< HEAD')
         body += [' +' + t for t in ours]
         body.append('++||||||| merged common ancestors')
@@ -198,6 +206,8 @@ def gen_combined(rng, conflict=False, nparents=2):
         model.append(('conflict', ours, anc, theirs))
         for _ in range(rng.randint(0, 2)):
             t = gen.rand_text(rng, 40, allow_empty=False, tabs_ok=False)
+            while t.startswith(('=======', '<<<<<<<', '>>>>>>>', '|||||||')):
+                t = gen.rand_text(rng, 40, allow_empty=False, tabs_ok=False)
             body.append('  ' + t)
             model.append(('line', '  ', t))
     cnt = len(body)
